@@ -156,7 +156,7 @@ def div(a, b):
         return 0
     if isinstance(b, T):
         b = ir.num(b)
-        if b.op == 'ite' and ir._leafy(b):
+        if b.op == 'ite' and (ir._leafy(b) or ir._nleaves(b) <= 40):
             return ite(b.args[0], div(a, b.args[1]), div(a, b.args[2]))
         if not _nonzero_here(b):
             return _div_zero(a)
